@@ -57,6 +57,14 @@ claim("C10",
       "Theorems parseLines_closed (for EVERY list of lines the model of _parse_file returns a database or ParsingError(n) with 1 <= n <= number of lines; IndexError and plain DatabaseError are unreachable - stepKind_error under the parser invariant), error_line_correct (the reported line is the first one the parser cannot accept: the lines before it load, and it fails in the state they lead to), load_closed (Database.load: success, ParsingError, or DatabaseError exactly for an unreadable file), blank_and_comment_ok, and range soundness parseTcpSig_ranges / parseMtuSig_range / parseTtl_range / parseWindow_range / parseOptionsField_range (whatever the parsers accept lies in the documented ranges, known keywords only, no quirk illegal for the version). Tied to the code by single-fault corruptions with generator-known faulty line, all sequences of <= 4 line kinds, unreadable paths, non-ASCII texts (category oracle) and corrupted signature texts.",
       BASE_NOTE + "Texts compared with the model are ASCII; non-ASCII inputs are judged by the exception-category oracle only. open()/decoding failures are modelled as one 'unreadable' outcome.",
       "Lean 4 invariant proof (error closure, error line, range soundness) + differential correspondence + fault-line oracle", "5 C10")
+claim("C11",
+      "Theorems over the state machine of public calls (apiStep / apiRun; the only state between calls is the live record map): failed_load_preserves, load_replaces (the result of a successful load is independent of what was loaded before - no accumulation) with load_result (= the database the file denotes, C09), load_idempotent, reader_old_or_new + reader_new_only_on_success (every observation during a load is the old or the new contents), unloaded_is_error_tcp/mtu/http + no_successful_load_stays_empty (before any successful load every fingerprint raises DatabaseError / PacketError, never 'no match'), apiRun_db and history_independent - for all histories, files and previous contents. Tied to the code by histories of loads (good A/B, the shipped file, a fault inserted at EVERY line, unreadable paths) and probes on one Database object while a reader snapshots the shared object at every line / call / return event (thorough: every bytecode) of the load.",
+      BASE_NOTE + "PARTIAL: preemption is abstracted to observation points inside the loading thread (bytecode boundaries in the thorough tier) - sound for CPython with the GIL, not for free-threaded builds; that the parser writes into a private RecordsDatabase is a fact of the code the model states and the reader checks, not something the theorem derives.",
+      "Lean 4 proofs over call histories (invariants by induction) + differential correspondence on histories with an injected reader", "5 C11")
+claim("C15",
+      "Theorems label_parse_dump (every four-part label text type:class:name:flavour without further colons - any class, spaces / punctuation, empty flavour - parses to exactly those fields and dumps back to exactly that text), parseLabel_dump_fixpoint (dump of any accepted label re-parses to the same label), candidates_iff (the candidates of a lookup are exactly the records of the requested kind and direction whose dumped label equals the text), candidates_error_iff / candidates_error_database (DatabaseError iff there is none), loaded_label_dump (a record loaded under a four-part label line dumps to that line's text). Tied to Label.parse/dump, Database.get_random and impersonate_mtu(raw_label=..) by label-text streams, generated databases with the same label across kinds and directions, and >= 40 seeded draws per record so that the set of returned records must equal the candidate set.",
+      BASE_NOTE + "'can return every such record' is about random.choice: the model gives the candidate list, the harness checks by repeated seeded draws that each candidate is returned (miss probability < 1e-16 per lookup). impersonate_tcp by label is exercised with C05.",
+      "Lean 4 round-trip and filter-characterisation proofs + differential correspondence with repeated seeded draws", "5 C15")
 
 ALL = [f"C{i:02d}" for i in range(1, 19)]
 checks = []
